@@ -10,6 +10,7 @@ PROP_CRATES = {
     "C08": ["events", "awaiter_set"],
     "C09": ["many_cpus_impl"],
     "C10": ["many_cpus_impl"],
+    "C11": ["many_cpus_impl", "cpulist"],
     "C12": ["linked"],
     "C13": ["region_cached", "region_local"],
     "C14": ["vicinal"],
